@@ -1,11 +1,14 @@
 (* C07 — amplitude burst labels follow the dual-threshold rule.
    Model: Model/Features.v, method Amp mask t n: `mask` is the sample-wise output of the external
    dual-amplitude-threshold detector (an input of the model, computed by the harness with the
-   documented minimum-cycle count), t the burst_fraction_threshold, n the run filter's count. *)
+   documented minimum-cycle count), t the burst_fraction_threshold, n the run filter's count.
+   The entry point evaluated against the implementation (run_features, method MAmp mask t bk tk)
+   receives the RAW min_n_cycles entries of the two option dictionaries and resolves n itself. *)
 From Coq Require Import List Arith Bool ZArith Floats.PrimFloat.
 Import ListNotations.
 From ByC Require Import Base.Result Base.ListAux Base.FloatBase Base.FloatFacts Model.Runs Model.Labels Model.Cycles Model.BurstFeat Model.Features
-  Proofs.Labels Proofs.LabelsOrder Proofs.BurstFeat Proofs.FeaturesSpec.
+  Proofs.Labels Proofs.LabelsOrder Proofs.BurstFeat Proofs.FeaturesSpec Proofs.Routing.
+From ByC Require Import Harness.Compare.
 
 (* burst_fraction of a cycle = fraction of detector samples that are True over [last side,
    next side] INCLUSIVE; the label = (fraction >= threshold, run >= n) rule on those fractions *)
@@ -64,3 +67,50 @@ Theorem C07_raising_threshold_never_adds_a_label : forall c raw k b mask t t' n 
   forall i, r_is_burst (nth i out' frow0) = true -> r_is_burst (nth i out frow0) = true.
 Proof. exact compute_features_amp_mono. Qed.
 Print Assumptions C07_raising_threshold_never_adds_a_label.
+
+(* the routing on the pipeline model that is evaluated against the implementation: given the RAW
+   min_n_cycles entries of burst_kwargs (bk) and threshold_kwargs (tk), None = key absent, the model
+   analyses with the burst options' value if given, else the thresholds' value, else 3 ... *)
+Theorem C07_pipeline_resolves_the_count_from_the_raw_options : forall c raw p padn amp b mask t bk tk,
+  run_features (c, raw, (p, padn, amp), b, MAmp mask t bk tk) =
+  compute_features c raw (kernels_in p padn amp) b
+    (Amp (barr_bits mask) t
+       (match bk with Some n => n | None => match tk with Some n => n | None => 3%Z end end)).
+Proof. exact run_features_amp. Qed.
+Print Assumptions C07_pipeline_resolves_the_count_from_the_raw_options.
+
+(* ... so the labels of the returned table are the (fraction >= threshold, run) rule with exactly the
+   count the sample-wise detector is documented to receive (detector_min_n), applied to the table's
+   own burst_fraction column *)
+Theorem C07_run_filter_uses_the_detector_count : forall c raw p padn amp b mask t bk tk out,
+  run_features (c, raw, (p, padn, amp), b, MAmp mask t bk tk) = Ok out ->
+  labels_amp t (detector_min_n bk tk) (map bf_of_row out) = Ok (map r_is_burst out).
+Proof. exact run_features_amp_labels. Qed.
+Print Assumptions C07_run_filter_uses_the_detector_count.
+
+Theorem C07_pipeline_label_iff_run_with_the_detector_count : forall c raw p padn amp b mask t bk tk out i,
+  run_features (c, raw, (p, padn, amp), b, MAmp mask t bk tk) = Ok out ->
+  (r_is_burst (nth i out frow0) = true <->
+   exists a e, a <= i < e /\ e <= length out /\ Z.to_nat (detector_min_n bk tk) <= e - a /\
+     forall j, a <= j < e -> (t <=? b_bf (r_burst (nth j out frow0)))%float = true).
+Proof. exact run_features_amp_label_iff. Qed.
+Print Assumptions C07_pipeline_label_iff_run_with_the_detector_count.
+
+(* ... while its burst_fraction column is the fraction of the detector mask handed in, whatever bk, tk *)
+Theorem C07_pipeline_burst_fraction_is_the_mask_fraction : forall c raw p padn amp b mask t bk tk out,
+  run_features (c, raw, (p, padn, amp), b, MAmp mask t bk tk) = Ok out ->
+  map bf_of_row out = map (burst_fraction_row (barr_bits mask)) (map r_s out).
+Proof. exact run_features_amp_fraction. Qed.
+Print Assumptions C07_pipeline_burst_fraction_is_the_mask_fraction.
+
+(* the order of precedence matters (non-vacuity): same table, both rows reach the threshold;
+   (bk, tk) = (1, 3) labels both rows, (3, 1) none; the thresholds' 2 is used when the burst options
+   give none; neither gives 3 *)
+Theorem C07_routing_precedence_example :
+  let run bk tk := rmap (map r_is_burst)
+    (compute_features Peak ByC.Proofs.Cycles.ex_raw ByC.Proofs.Cycles.ex_k 0
+       (Amp ByC.Proofs.Cycles.ex_pos 0.25%float (filter_min_n bk tk))) in
+  run (Some 1%Z) (Some 3%Z) = Ok [true; true] /\ run (Some 3%Z) (Some 1%Z) = Ok [false; false] /\
+  run None (Some 2%Z) = Ok [true; true] /\ run None None = Ok [false; false] /\ run (Some 2%Z) None = Ok [true; true].
+Proof. exact routing_example. Qed.
+Print Assumptions C07_routing_precedence_example.
